@@ -228,10 +228,74 @@ def check_copy_graph(ctx) -> bool:
     return True
 
 
+def check_species_copy(ctx) -> None:
+    """Species.copy (Metabolite.copy / Gene.copy, used by add_metabolites for metabolites of another model and hence
+    by reaction arithmetic) evaluated on a stand-in: no mutable attribute of the copy is the original's object."""
+    from . import copyform
+    from ..interp import Interp
+    import copy as _copy
+
+    prog = ctx.prog
+    fn = prog.func("cobra.core.species", "Species.copy")
+    classes, attrs = copyform.build_classes(prog)
+    for cname in ("Metabolite", "Gene"):
+        o = classes[cname]("x1")
+        for a, kind in attrs[cname].items():
+            if kind is dict:
+                o.__dict__[a] = {f"{a}-key": "value"}
+            elif kind is list:
+                o.__dict__[a] = ["value"]
+            elif kind is set and a != "_reaction":
+                o.__dict__[a] = {"value"}
+        o.__dict__["_reaction"] = set()
+        o.__dict__["_model"] = None
+        stubs = {"copy.copy": lambda it_, ev, c, a, k: _copy.copy(a[0]), "copy.deepcopy": lambda it_, ev, c, a, k: _copy.deepcopy(a[0])}
+        it = Interp(prog, (copyform._S,), [], stubs, globals_={})
+        try:
+            new = it.call(fn, [], {}, selfobj=o)
+        except EvalRaise as exc:
+            ctx.bad("C12.detach", fn, fn.node, f"{cname}.copy() raises {exc.exc_type}")
+            continue
+        except Unknown as exc:
+            raise AnalysisError(f"C12.detach: Species.copy cannot be evaluated: {exc}")
+        if not isinstance(new, classes[cname]) or new is o:
+            ctx.bad("C12.detach", fn, fn.node, f"{cname}.copy() does not return a new {cname}")
+            continue
+        a_, b_ = copyform.reachable(o, "original"), copyform.reachable(new, "copy")
+        shared = sorted((b_[k][1], a_[k][1]) for k in set(a_) & set(b_))
+        if shared:
+            ctx.bad("C12.detach", fn, fn.node, f"{cname}.copy(): {shared[0][0]} is the very object {shared[0][1]}: editing it through the copy (also through the metabolites a reaction sum took over from another model) changes the original")
+        else:
+            ctx.ok("C12.detach", fn, f"{cname}.copy", f"{cname}.copy() shares no mutable attribute with the original (evaluated)")
+
+
+def check_deepcopy_protocol(ctx) -> None:
+    """A class that customises deep copying has to hand the memo on: `__deepcopy__` without use of its memo argument
+    copies the object outside the copy in progress, so objects copied together with it (deepcopy of a model together
+    with some of its reactions, of a list of models ...) end up duplicated, and whatever it delegates to decides the
+    depth."""
+    n = 0
+    for fn in sorted(ctx.prog.all_funcs(), key=lambda f: f.qualname):
+        if fn.name != "__deepcopy__" or not fn.unit.modname.startswith("cobra.core"):
+            continue
+        params = [p for p in fn.pos_params if p != fn.self_name]
+        memo = params[0] if params else None
+        used = memo is not None and any(isinstance(x, ast.Name) and x.id == memo and isinstance(x.ctx, ast.Load) for x in walk_local(fn.node))
+        n += 1
+        if used:
+            ctx.ok("C12.fresh", fn, fn.node, "__deepcopy__ hands its memo on")
+        else:
+            ctx.bad("C12.fresh", fn, fn.node, f"{fn.short} ignores its memo: the object is copied outside the deep copy in progress (objects copied together with it are duplicated or left pointing to the original) and the depth is whatever the delegate does - copy.deepcopy no longer yields an independent object")
+    if n == 0:
+        raise AnalysisError("C12.fresh: no __deepcopy__ in cobra.core (Reaction.__deepcopy__ expected)")
+
+
 def check_fresh(ctx) -> None:
     prog, inf = ctx.prog, ctx.inf
     fn = prog.func("cobra.core.model", "Model.copy")
     check_copy_graph(ctx)
+    ctx.guard(check_species_copy, ctx)
+    ctx.guard(check_deepcopy_protocol, ctx)
     # the per-attribute reading below needs the familiar form of the function (five `for ... in X.__dict__` loops in
     # Model.copy itself); any other spelling is decided by the evaluated clause above alone
     try:
